@@ -573,6 +573,44 @@ theorem gen_writes_go_to_copies :
     (["get_copy", "}", "else{", "get_copy", "if(err){", "return", "}", "}", "header_update(viewsToUpdate[viewKey])"] <:+: Csvq.Gen.fxUpdate) ∧
     (["get_copy", "}", "else{", "get_copy", "if(err){", "return", "}", "}", "header_update(viewsToDelete[viewKey])"] <:+: Csvq.Gen.fxDelete) := by decide
 
+/-- LOADING after a cache hit: `loadObjectFromFile` hands out copies and registers the alias; it never disposes a cached
+    view, closes a handler or defers anything — so a statement that fails during loading (duplicate table name in FROM,
+    a missing second table, cancellation while internal ids are attached) cannot throw away the uncommitted changes an
+    earlier statement left in the cache (seed C08-m13 added exactly such a deferred dispose) -/
+theorem gen_load_never_disposes :
+    Csvq.Gen.fxLoadObjectFromFile = Csvq.Ref.fxLoadObjectFromFile ∧
+    Csvq.Gen.fxLoadObjectFromFile.all (fun t => !(Csvq.Skeleton.hasPrefix "dispose" t || Csvq.Skeleton.hasPrefix "defer:" t ||
+      Csvq.Skeleton.hasPrefix "close_handler" t || Csvq.Skeleton.hasPrefix "publish_" t || Csvq.Skeleton.hasPrefix "call(" t)) = true ∧
+    Csvq.Gen.fxLoadObjectFromFile.head? = some "cache_load" := by decide
+
+/-- the model's counterpart: a statement whose body fails while it fetches its copies (`getCopy` / `getCopies` /
+    `joinedView`: unknown table) returns the state it was given, uncommitted changes of earlier statements included -/
+theorem load_failure_keeps_uncommitted_changes (s : State) (pre : Stmt) (st : Stmt) (e : Err)
+    (h : (stmtImpl (stmtImpl s pre).1 st).2 = .error e) :
+    (stmtImpl (stmtImpl s pre).1 st).1 = (stmtImpl s pre).1 :=
+  failed_stmt_id _ st e h
+
+/-- e.g. a multi-table statement whose FROM names a table that does not exist fails in `getCopies`, whatever came before -/
+theorem multi_table_missing_from_fails (ts : Tables) (targets froms : List String) (cond : List Row → Except Err Tern)
+    (sets : List (String × SetItem (List Row))) (n : String) (hn : n ∈ froms) (hmiss : lookupT ts n = none) :
+    body ts (.updateMulti targets froms cond sets) = .error .noTable ∧
+    body ts (.deleteMulti targets froms cond) = .error .noTable := by
+  have hc : getCopies ts froms = .error .noTable := by
+    induction froms with
+    | nil => cases hn
+    | cons f fs ih =>
+      unfold getCopies
+      by_cases hf : f = n
+      · subst hf; simp [getCopy, hmiss]
+      · have hn' : n ∈ fs := by
+          cases hn with
+          | head => exact absurd rfl hf
+          | tail _ h => exact h
+        cases hl : lookupT ts f with
+        | none => simp [getCopy, hl]
+        | some t => simp [getCopy, hl, ih hn']
+  constructor <;> simp [body, joinedView, hc]
+
 /-! ## non-vacuity -/
 
 def c (i : Int) : Cell :=
